@@ -1,23 +1,20 @@
 CONSTANTS
   FieldNums <- Seq3
   PairNums <- Pairs0
-  CountNums <- Counts2
-  MsgTypes <- Msgs1
-  AdminTypes = {}
-  CompNames <- Comps1
-  MaxDepth = 2
+  CountNums <- Counts3
+  MsgTypes <- Msgs2
+  AdminTypes = {"UB"}
+  CompNames <- Comps0
+  MaxDepth = 3
   MaxItems = 3
   MaxSteps = 3
   MinSteps = 0
   Pick <- PickAll
-  Variants = {}
-  Dev = {}
+  Variants = {"same", "flags", "order", "members", "nested"}
+  Dev = {"flags_order_not_in_identity"}
   FieldOptions <- SmallOptions
 INIT Init
 NEXT Next
-INVARIANT Valid
 INVARIANT OwnTraits
-INVARIANT DistinctDefsDistinctTraits
-INVARIANT Export
 VIEW View
 CHECK_DEADLOCK FALSE
